@@ -28,17 +28,56 @@ Hardening (after the missed seeded changes C03-C, C03-D):
             the argument of from_bits is left alone and changing it afterwards changes nothing, results are held while other
             calls are made / until the end of the run (Holder) and re-verified.  Failures carry the history as input
             ({"kind": "alias", "probe": ...}) and replay re-executes it.
+
+Hardening, round 3 (after the missed seeded changes C03-E, C03-F):
+  ignored arguments -> every PDU class takes the arguments of ALL its opcodes / formats.  ignored_cases(): per variant the object is
+            built with EVERY constructor argument set (inspect.signature coverage is recorded): the arguments of the other
+            variants at 0 / max / random non-zero / random, all at once and one at a time, crossed with the carried fields random /
+            all zero / all max / each in turn at 0 and max.  Oracle: the carried attributes decode back equal, the bits are
+            stable, the object holds the values it was given ("constructor-changes-field": the canonical field text written
+            from the GIVEN values must be what the object prints; the model's enc line is written from the given values too).
+            Correspondence: `x.enc <given carried fields>` and `x.encattrs <every attribute of the object>` (Model/PduArgs.lean:
+            as_bits read off the whole attribute record) against the real as_bits.  Lean: Props/C03d.
+            Siblings: alt_cases() — every argument in the OTHER type its signature accepts (int/bool, enum/int, bytes/bitarray,
+            int/bitarray, int/bytes); equal_pair_cases() — two fields of the same type equal / octets reversed / complemented /
+            plus 1; the octet interface (as_bytes / from_bytes) must agree with the bit interface on every fields case.
+  check transforms -> check_field_cases(): for every PDU with a check field (CSBK, data header, PI header CRC-CCITT; short LC
+            CRC-8; full LC RS(12,9) parity under both masks / 5-bit checksum; CRC-9 of confirmed rate blocks) the field is set
+            to every systematic TRANSFORM of the right value (transform_table: octets reversed / rotated, bits reversed whole and
+            per octet, nibbles swapped / reversed, complemented, every rotation, every other data type's mask xor-ed / instead of
+            the own one, without mask, without inversion, +-1, negated, shifted, every single bit flipped, 0, all ones, the mask
+            itself) and to the body's CRC by eight other CRC-16/CCITT conventions and over parts / variants of the body, crossed
+            with every selector value of the variant (every feature set id, flag, enum member: covering_rows with cap 32).  The
+            right value is taken from the library (CRC16 / CRC8 / CRC9 / ReedSolomon1294 / FiveBitChecksum) and from a plain
+            bitwise computation here (a disagreement is C05's subject and only counted).  Decode side: the same transforms over
+            valid encodings whose two selector octets take all 256 values; check_bits reports "check-field-rewritten" when
+            every other bit re-serialises as received but the (non-zero) check field does not.  Lean: Props/C03c
+            (csbk/dh/slc_crc_verbatim, rate_checks_verbatim, *_crc_enc_verbatim).  embedded_crc_cases(): a CRC of one part of the
+            PDU standing inside an opaque payload field.
+  error paths / ambient state -> error_path_probe(): valid calls, a batch of calls that raise (wrong lengths, argument types,
+            every documented decode error, out-of-range fields, attributes set to None), the same valid calls again — first
+            thing in the run.  ambient_probe(): a fixed sample with the root logger at DEBUG, stdout / stderr raising on
+            write, both, `random` reseeded, warnings as errors; ambient_children(): the sample in a fresh interpreter (the
+            results at the END of the run must equal it), under `python -O`, and with the FIRST call on every class failing.
 """
+import enum
 import json
 import math
 
 from bitarray import bitarray
 from bitarray.util import int2ba, ba2int
 
-from common import impl_error
+try:
+    from common import impl_error
+except ImportError:  # run as a script (child interpreters of the ambient probe): harness/ is not on the path yet
+    import os as _os
+    import sys as _sys
+
+    _sys.path.insert(0, _os.path.dirname(_os.path.dirname(_os.path.abspath(__file__))))
+    from common import impl_error
 
 PROP = "C03"
-MODULES = ["C03", "C03a", "C03b", "C03c"]
+MODULES = ["C03", "C03a", "C03b", "C03c", "C03d"]
 GEN = ["Elements"]
 MATCHERS = {}
 
@@ -48,8 +87,15 @@ SKIP_ATTRS = ("crc_ok", "crc9_ok")
 # ------------------------------------------------------------------------------------------------
 # canonical forms
 def canon(v):
-    import enum
-
+    t = type(v)
+    if t is int or t is str or v is None:
+        return v
+    if t is bool:
+        return int(v)
+    if t is bitarray:
+        return "b" + v.to01()
+    if t is bytes:
+        return "x" + v.hex()
     if isinstance(v, bool):
         return int(v)
     if isinstance(v, enum.Enum):
@@ -60,7 +106,7 @@ def canon(v):
         return "x" + bytes(v).hex()
     if isinstance(v, float):
         return ["F", v.hex()]
-    if isinstance(v, int) or v is None or isinstance(v, str):
+    if isinstance(v, int) or isinstance(v, str):
         return v
     if isinstance(v, (list, tuple)):
         return [canon(x) for x in v]
@@ -70,7 +116,7 @@ def canon(v):
 
 
 def attrs(o):
-    return {k: canon(x) for k, x in sorted(vars(o).items()) if k not in SKIP_ATTRS}
+    return {k: canon(x) for k, x in vars(o).items() if k not in SKIP_ATTRS}
 
 
 def diff_attrs(a, b):
@@ -171,13 +217,22 @@ class S:
 
 
 class Variant:
-    def __init__(self, kind, name, fields, build, length=None, fix=None):
+    def __init__(self, kind, name, fields, build, length=None, fix=None, cls=None, kwargs=None, payload_kwargs=None, carried=None,
+                 optional=None):
         self.kind = kind
         self.name = name
         self.fields = fields  # [(plain field name, spec)]
         self.build = build  # plain dict -> object
         self.length = length  # plain dict -> expected serialised length (default: kind.length)
         self.fix = fix  # plain dict -> plain dict: re-establish cross-field constraints after a special value was set
+        # constructor view of the variant (signature-driven classes: ignored arguments, other accepted argument types)
+        self.cls = cls  # the PDU class
+        self.kwargs = kwargs  # plain dict -> every keyword argument the variant passes to cls(...)
+        self.payload_kwargs = payload_kwargs  # plain dict -> the opcode / format specific keyword arguments only
+        self.carried = carried  # attribute names this opcode / format carries (None: every attribute)
+        self.optional = optional or []  # [(plain key, spec)] the build reads with a default: arguments the variant does NOT carry
+        if build is None and cls is not None:
+            self.build = lambda v: cls(**kwargs(v))
 
     def random_vals(self, rng):
         return {n: s.rand(rng) for n, s in self.fields}
@@ -189,6 +244,7 @@ class Kind:
     def __init__(self, name, length, from_bits, fmt, errors, variants=None, bit_seeds=None, extra_check=None,
                  dec_line=None, enc_line=None, enc_out=None, n_bits=None):
         self.dec_line = dec_line or (lambda s: f"{name}.dec {s}")
+        self.enc_line_from_text = enc_line is None  # the model's enc line is "<name>.enc <canonical field text>"
         self.enc_line = enc_line or (lambda p, vals: f"{name}.enc {fmt(p, vals.get('crc'))}")
         self.enc_out = enc_out or (lambda p, bits: sbits(bits))
         self.n_bits = n_bits
@@ -343,9 +399,10 @@ def mk_csbk_kind():
         return ("non-default unrelated attributes " + ",".join(bad)) if bad else None
 
     k = Kind("csbk", 96, CSBK.from_bits, fmt, errors=["ValueError", "NotImplementedError"], extra_check=extra)
-    for name, op, fields, kw, _a, _n in table:
+    for name, op, fields, kw, _a, names in table:
         k.variants.append(
-            Variant(k, name, hdr + fields, (lambda v, op=op, kw=kw: CSBK(**common(v, op), **kw(v))))
+            Variant(k, name, hdr + fields, None, cls=CSBK, kwargs=(lambda v, op=op, kw=kw: dict(common(v, op), **kw(v))), payload_kwargs=kw,
+                    carried=set(names) | {"last_block", "protect_flag", "csbko", "feature_set", "crc"})
         )
     ops = [t[1].value for t in table]
 
@@ -503,8 +560,10 @@ def mk_dh_kind():
         return " ".join([c, t[0], ",".join(str(x) for x in t[4](o))])
 
     k = Kind("dh", 96, DataHeader.from_bits, fmt, errors=["ValueError", "NotImplementedError"])
-    for name, dpf, fields, kw, _a, _n in table:
-        k.variants.append(Variant(k, name, hdr + fields, (lambda v, dpf=dpf, kw=kw: DataHeader(dpf=dpf, crc=bitarray(v["crc"]), **kw(v)))))
+    for name, dpf, fields, kw, _a, names in table:
+        k.variants.append(Variant(k, name, hdr + fields, None, cls=DataHeader,
+                                  kwargs=(lambda v, dpf=dpf, kw=kw: dict(dpf=dpf, crc=bitarray(v["crc"]), **kw(v))), payload_kwargs=kw,
+                                  carried=set(names) | common_attrs))
     carried = {t[0]: set(t[5]) | common_attrs for t in table}
     defaults = cross_variant_defaults(k, carried)
 
@@ -594,12 +653,13 @@ def mk_flc_kind():
         return ("non-default unrelated attributes " + ",".join(bad)) if bad else None
 
     k = Kind("flc", None, FullLinkControl.from_bits, fmt, errors=["ValueError", "KeyError"], extra_check=extra)
-    for name, ops, fields, kw, _a, _n in table:
-        def build(v, ops=ops, kw=kw):
+    for name, ops, fields, kw, _a, names in table:
+        def kwargs(v, ops=ops, kw=kw):
             flco = FLCOs(v["flco"]) if "flco" in v else ops[0]
-            return FullLinkControl(protect_flag=v["pf"], flco=flco, fid=FeatureSetIDs(v["fid"]), crc=bitarray(v["crc"]), **kw(v))
+            return dict(protect_flag=v["pf"], flco=flco, fid=FeatureSetIDs(v["fid"]), crc=bitarray(v["crc"]), **kw(v))
 
-        k.variants.append(Variant(k, name, hdr + fields, build, length=lambda v: 72 + len(v["crc"])))
+        k.variants.append(Variant(k, name, hdr + fields, None, length=lambda v: 72 + len(v["crc"]), cls=FullLinkControl, kwargs=kwargs,
+                                  payload_kwargs=kw, carried=set(names) | {"protect_flag", "full_link_control_opcode", "feature_set_id", "crc"}))
     ops = [op.value for op in by_op]
 
     def seeds(rng):
@@ -636,11 +696,15 @@ def mk_slc_kind():
         return None
 
     k = Kind("slc", 36, ShortLinkControl.from_bits, fmt, errors=["KeyError", "ValueError"], extra_check=extra)
+    act_kw = lambda v: dict(ts1_activity_id=ActivityID(v["t1"]), ts2_activity_id=ActivityID(v["t2"]), ts1_address=bitarray(v["a1"]),
+                            ts2_address=bitarray(v["a2"]))
     k.variants = [
-        Variant(k, "null", [("crc", BITS(8))], lambda v: ShortLinkControl(slco=SLCOs.NullMessage, crc_8bit=bitarray(v["crc"]))),
-        Variant(k, "activity", [("crc", BITS(8)), ("t1", E(ActivityID)), ("t2", E(ActivityID)), ("a1", BITS(8)), ("a2", BITS(8))],
-                lambda v: ShortLinkControl(slco=SLCOs.ActivityUpdate, crc_8bit=bitarray(v["crc"]), ts1_activity_id=ActivityID(v["t1"]),
-                                           ts2_activity_id=ActivityID(v["t2"]), ts1_address=bitarray(v["a1"]), ts2_address=bitarray(v["a2"]))),
+        Variant(k, "null", [("crc", BITS(8))], None, cls=ShortLinkControl,
+                kwargs=lambda v: dict(slco=SLCOs.NullMessage, crc_8bit=bitarray(v["crc"])), payload_kwargs=lambda v: {},
+                carried={"slco", "crc_8bit"}),
+        Variant(k, "activity", [("crc", BITS(8)), ("t1", E(ActivityID)), ("t2", E(ActivityID)), ("a1", BITS(8)), ("a2", BITS(8))], None,
+                cls=ShortLinkControl, kwargs=lambda v: dict(slco=SLCOs.ActivityUpdate, crc_8bit=bitarray(v["crc"]), **act_kw(v)),
+                payload_kwargs=act_kw, carried=None),
     ]
 
     def seeds(rng):
@@ -660,7 +724,8 @@ def mk_pi_kind():
     from okdmr.dmrlib.etsi.layer2.pdu.pi_header import PIHeader
 
     k = Kind("pi", 96, PIHeader.from_bits, lambda o, crc=None: f"{shex(o.data)} {o.crc}", errors=[])
-    k.variants = [Variant(k, "pi", [("data", BYTES(10)), ("crc", U(16))], lambda v: PIHeader(data=bytes.fromhex(v["data"]), crc=v["crc"]))]
+    k.variants = [Variant(k, "pi", [("data", BYTES(10)), ("crc", U(16))], None, cls=PIHeader,
+                          kwargs=lambda v: dict(data=bytes.fromhex(v["data"]), crc=v["crc"]), payload_kwargs=lambda v: {})]
     k.bit_seeds = lambda rng: int2ba(rng.getrandbits(96), length=96)
     k.n_bits = (800, 20000)
     return k
@@ -694,12 +759,18 @@ def mk_rate_kinds():
                 if tname in ("unconfirmedLast", "confirmedLast"):
                     fields += [("crc32", U(32))]
 
-                def build(v, cls=cls, member=member):
-                    return cls(data=bytes.fromhex(v["data"]), packet_type=member, dbsn=v.get("dbsn", 0), crc9=v.get("crc9", 0), crc32=v.get("crc32", 0))
+                def kwargs(v, member=member):
+                    return dict(data=bytes.fromhex(v["data"]), packet_type=member, dbsn=v.get("dbsn", 0), crc9=v.get("crc9", 0), crc32=v.get("crc32", 0))
 
-                k.variants = [Variant(k, tname, fields, build)]
+                carried = {"data", "packet_type"} | ({"dbsn", "crc9"} if tname in ("confirmed", "confirmedLast") else set()) \
+                    | ({"crc32"} if tname in ("unconfirmedLast", "confirmedLast") else set())
+                have = {n for n, _s in fields}
+                optional = [(n, sp) for n, sp in (("dbsn", U(7)), ("crc9", U(9)), ("crc32", U(32))) if n not in have]
+                k.variants = [Variant(k, tname, fields, None, cls=cls, kwargs=kwargs, payload_kwargs=lambda v: {}, carried=carried,
+                                      optional=optional)]
                 k.enc_line = (lambda p, v, cname=cname, tname=tname:
                               f"rate.enc {cname} {tname} {v['data'] or '-'} {v.get('dbsn', 0)} {v.get('crc9', 0)} {v.get('crc32', 0)}")
+                k.enc_line_from_text = False
                 k.enc_out = lambda p, bits: f"{p.crc9} {sbits(bits)}"
                 k.rate = (cname, tname, members)
             out.append(k)
@@ -723,21 +794,22 @@ def mk_udp_kind():
     k = Kind("udp", None, H.from_bits, fmt, errors=["AssertionError"])
     base = [("id", U(16)), ("sip", E(IPAddressIdentifier)), ("dip", E(IPAddressIdentifier)), ("ud", VBITS(80)), ("as_member", B())]
 
-    def build(v):
+    def kwargs(v):
         sp, dp = v.get("sp", 0), v.get("dp", 0)
         if v["as_member"]:
             sp = port_members.get(sp, sp)
             dp = port_members.get(dp, dp)
-        return H(ipv4_identification=v["id"], source_ip_address_id=IPAddressIdentifier(v["sip"]), destination_ip_address_id=IPAddressIdentifier(v["dip"]),
-                 udp_source_port_id=sp, udp_destination_port_id=dp, user_data=bitarray(v["ud"]),
-                 extended_header_1=v.get("e1"), extended_header_2=v.get("e2"))
+        return dict(ipv4_identification=v["id"], source_ip_address_id=IPAddressIdentifier(v["sip"]), destination_ip_address_id=IPAddressIdentifier(v["dip"]),
+                    udp_source_port_id=sp, udp_destination_port_id=dp, user_data=bitarray(v["ud"]),
+                    extended_header_1=v.get("e1"), extended_header_2=v.get("e2"))
 
     ln = lambda v: 40 + 16 * (("e1" in v) + ("e2" in v)) + len(v["ud"])
+    mk = lambda name, fields: Variant(k, name, base + fields, None, length=ln, cls=H, kwargs=kwargs, payload_kwargs=lambda v: {})
     k.variants = [
-        Variant(k, "ext0", base + [("sp", UNZ(7, sel=PORT_SEL)), ("dp", UNZ(7, sel=PORT_SEL))], build, length=ln),
-        Variant(k, "ext1s", base + [("dp", UNZ(7, sel=PORT_SEL)), ("e1", U(16))], build, length=ln),
-        Variant(k, "ext1d", base + [("sp", UNZ(7, sel=PORT_SEL)), ("e1", U(16))], build, length=ln),
-        Variant(k, "ext2", base + [("e1", U(16)), ("e2", U(16))], build, length=ln),
+        mk("ext0", [("sp", UNZ(7, sel=PORT_SEL)), ("dp", UNZ(7, sel=PORT_SEL))]),
+        mk("ext1s", [("dp", UNZ(7, sel=PORT_SEL)), ("e1", U(16))]),
+        mk("ext1d", [("sp", UNZ(7, sel=PORT_SEL)), ("e1", U(16))]),
+        mk("ext2", [("e1", U(16)), ("e2", U(16))]),
     ]
 
     def seeds(rng):
@@ -755,8 +827,109 @@ def mk_udp_kind():
     return k
 
 
+# ---- every attribute of an object, for the models of as_bits() over the whole attribute record (Model/PduArgs.lean)
+def _ev(x):
+    return "-" if x is None else str(x.value)
+
+
+def _nv(x):
+    return "-" if x is None else str(int(x))
+
+
+def _bv(x):
+    return "-" if x is None else sbits(x)
+
+
+def dh_attrs_line(o):
+    return "dh.encattrs " + " ".join([
+        _ev(o.data_packet_format), sbits(o.crc), b01(o.is_group), b01(o.is_response_requested), _nv(o.pad_octet_count), _ev(o.sap_identifier),
+        _nv(o.llid_destination), _nv(o.llid_source), _ev(o.full_message_flag), _nv(o.blocks_to_follow), _ev(o.resynchronize_flag),
+        _nv(o.send_sequence_number), _ev(o.fragment_sequence_number), _nv(o.response_class), _nv(o.response_type), _nv(o.response_status),
+        _nv(o.appended_blocks), _ev(o.defined_data_format), _ev(o.sarq), _bv(o.bit_padding), b01(o.is_emergency), _ev(o.udt_option_flag),
+        _nv(o.pad_nibbles_count), _ev(o.udt_format), _ev(o.udt_opcode), _ev(o.supplementary_flag)])
+
+
+def csbk_attrs_line(o):
+    so = o.service_options
+    return "csbk.encattrs " + " ".join([
+        _ev(o.csbko), b01(o.last_block), b01(o.protect_flag), _ev(o.feature_set), _nv(o.crc), _nv(o.bs_address), _nv(o.source_address),
+        "-" if so is None else ",".join(so_args(so)), _nv(o.target_address), _ev(o.answer_response), _ev(o.additional_information_field),
+        _ev(o.source_type), _ev(o.service_type), _ev(o.reason_code), b01(o.csbk_content_follows_preambles), b01(o.target_address_is_individual),
+        _nv(o.blocks_to_follow), _nv(o.sync_age), _nv(o.generation), _nv(o.leader_identifier), _nv(o.new_leader),
+        _ev(o.leader_dynamic_identifier), _ev(o.channel_timing_opcode), _nv(o.source_identifier), _ev(o.source_dynamic_identifier),
+        b01(o.tsccas_support), b01(o.site_timeslot_synchronized), _nv(o.document_version_control), b01(o.tscc_is_offset_timing),
+        b01(o.ts_active_connection), _nv(o.aloha_mask), _ev(o.service_function), _nv(o.nrand_wait), b01(o.tscc_reg_required),
+        _nv(o.tscc_backoff), _nv(o.system_identity_code), shex(o.raw_data), _ev(o.announcement_type), _bv(o.broadcast_params)])
+
+
+def flc_attrs_line(o):
+    so = o.service_options
+    return "flc.encattrs " + " ".join([
+        b01(o.protect_flag), _ev(o.full_link_control_opcode), _ev(o.feature_set_id), _bv(o.crc), "-" if so is None else ",".join(so_args(so)),
+        _nv(o.group_address), _nv(o.source_address), _nv(o.target_address), _ev(o.position_error), str(gps_raw(o.longitude, GPS_LON)),
+        str(gps_raw(o.latitude, GPS_LAT)), _ev(o.talker_alias_data_format), _nv(o.talker_alias_data_length), b01(o.talker_alias_data_msb),
+        shex(o.talker_alias_data)])
+
+
+def slc_attrs_line(o):
+    return "slc.encattrs " + " ".join([_ev(o.slco), _bv(o.crc_8bit), _ev(o.ts1_activity_id), _ev(o.ts2_activity_id), _bv(o.ts1_address),
+                                        _bv(o.ts2_address)])
+
+
+# ---- the canonical field text (the one kind.fmt prints for an object) written from the GIVEN plain field values: what the object must
+# hold if the constructor stores its arguments as they are (a check field given as 0 / all-zero is the "compute it" sentinel)
+def _pv(x):
+    return "-" if x == "" else str(x)
+
+
+def _payload_text(var, vals, skip):
+    return ",".join(_pv(vals[n]) for n, _sp in var.fields if n not in skip) or "-"
+
+
+def csbk_vals_text(var, vals, p):
+    return " ".join([b01(vals["lb"]), b01(vals["pf"]), str(vals["fid"]), str(vals["crc"]), var.name, _payload_text(var, vals, ("lb", "pf", "fid", "crc"))])
+
+
+def dh_vals_text(var, vals, p):
+    return " ".join([_pv(vals["crc"]), var.name, _payload_text(var, vals, ("crc",))])
+
+
+def flc_vals_text(var, vals, p):
+    return " ".join([b01(vals["pf"]), str(vals["fid"]), _pv(vals["crc"]), var.name, _payload_text(var, vals, ("pf", "fid", "crc"))])
+
+
+def slc_vals_text(var, vals, p):
+    return " ".join([_pv(vals["crc"]), var.name, _payload_text(var, vals, ("crc",))])
+
+
+def so_vals_text(var, vals, p):
+    return _payload_text(var, vals, ())
+
+
+def pi_vals_text(var, vals, p):
+    return f"{_pv(vals['data'])} {p.crc}"  # the CRC argument is not stored (always recomputed)
+
+
+def rate_vals_text(var, vals, p):
+    c9 = vals.get("crc9", 0)
+    return f"{_pv(vals['data'])} {vals.get('dbsn', 0)} {c9 if c9 else p.crc9} {vals.get('crc32', 0)}"
+
+
+VALS_TEXT = {"csbk": csbk_vals_text, "dh": dh_vals_text, "flc": flc_vals_text, "slc": slc_vals_text, "so": so_vals_text, "pi": pi_vals_text,
+             "rate": rate_vals_text}
+
+
+ATTRS_LINES = {"dh": dh_attrs_line, "csbk": csbk_attrs_line, "flc": flc_attrs_line, "slc": slc_attrs_line}
+
+
 def kinds():
-    return [mk_so_kind(), mk_csbk_kind(), mk_dh_kind(), mk_flc_kind(), mk_slc_kind(), mk_pi_kind()] + mk_rate_kinds() + [mk_udp_kind()]
+    ks = [mk_so_kind(), mk_csbk_kind(), mk_dh_kind(), mk_flc_kind(), mk_slc_kind(), mk_pi_kind()] + mk_rate_kinds() + [mk_udp_kind()]
+    cfs = mk_check_fields({k.name: k for k in ks})
+    for k in ks:
+        k.check = cfs.get(k.name, [])
+        k.attrs_line = ATTRS_LINES.get(k.name)
+        k.vals_text = VALS_TEXT.get("rate" if k.name.startswith("rate") else k.name)
+    return ks
 
 
 # ------------------------------------------------------------------------------------------------
@@ -768,40 +941,96 @@ def call(fn, *a):
         return None, impl_error(e)
 
 
-def check_fields(ctx, kind, variant, vals, record=True):
-    """property on the real code for one PDU built from fields; returns (enc line pair or None)"""
+def build_object(kind, variant, vals, opts=None):
+    """the PDU object for the plain field values; opts: {"ignored": …} sets constructor arguments the variant does NOT carry
+    (ignored_kwargs), {"alt": [names]} passes the named arguments in the other type the constructor's signature accepts"""
+    if not opts:
+        return variant.build(vals)
+    kw = variant.kwargs(merged_vals(variant, vals, opts))
+    ign = opts.get("ignored")
+    if ign:
+        kw = dict(ignored_kwargs(kind, variant, kw, ign), **kw)
+    for name in opts.get("alt") or []:
+        if name in kw:
+            kw[name] = alt_argument(kind, name, kw[name])
+    return variant.cls(**kw)
+
+
+def merged_vals(variant, vals, opts):
+    """field values + the optional plain keys (arguments the variant's build reads with a default) of the 'ignored' option"""
+    extra = ((opts or {}).get("ignored") or {}).get("extra")
+    if not extra:
+        return vals
+    return dict({k: v for k, v in extra.items() if k not in vals}, **vals)
+
+
+def check_fields(ctx, kind, variant, vals, record=True, opts=None):
+    """property on the real code for one PDU built from fields; returns (enc line pair or None).
+    opts["ignored"]: the object is built with non-default values in constructor arguments its opcode / format does not carry —
+    they must not reach the wire: the carried attributes are compared with the decoded ones (the others come back as defaults)."""
     inp = {"kind": kind.name, "variant": variant.name, "mode": "fields", "fields": vals}
-    p, err = call(variant.build, vals)
+    if opts:
+        inp["options"] = opts
+    ignoring = bool(opts and opts.get("ignored"))
+    how = (" with ignored constructor arguments set" if ignoring else "") + (f" with {opts['alt']} in the other accepted type" if opts and opts.get("alt") else "")
+    p, err = call(build_object, kind, variant, vals, opts)
     if err:
-        ctx.fail("constructor-raises", inp, f"{kind.name}/{variant.name}: building the PDU from in-range fields raised {err}", actual=err)
+        ctx.fail("constructor-raises", inp, f"{kind.name}/{variant.name}: building the PDU from in-range fields{how} raised {err}", actual=err)
         return None
     bits, err = call(p.as_bits)
     if err or bits is None:
-        ctx.fail("as_bits-raises", inp, f"{kind.name}/{variant.name}: as_bits raised {err}", actual=err)
+        ctx.fail("as_bits-raises", inp, f"{kind.name}/{variant.name}: as_bits{how} raised {err}", actual=err)
         return None
     hold = getattr(ctx, "hold", None)
     if hold is not None:
         hold.keep(f"{kind.name}.as_bits", inp, bits)
     pa = attrs(p)
+    mv = merged_vals(variant, vals, opts)
+    enc_line = None
+    vt = getattr(kind, "vals_text", None)
+    if vt is not None:
+        # "built from field values": the object must hold the values it was given (compared in the canonical field text)
+        want_txt, err = call(vt, variant, mv, p)
+        got_txt, err2 = call(kind.fmt, p, mv.get("crc"))
+        if not err and not err2:
+            if want_txt != got_txt:
+                ctx.fail("constructor-changes-field", inp, f"{kind.name}/{variant.name}: the object does not hold the field values it was built from{how}",
+                         expected=want_txt, actual=got_txt)
+            if kind.enc_line_from_text:
+                enc_line = f"{kind.name}.enc {want_txt}"  # the model is given the values the PDU was built from
     want = variant.length(vals) if variant.length else kind.length
     if want is not None and len(bits) != want:
-        ctx.fail("wrong-length", inp, f"{kind.name}/{variant.name}: serialised length {len(bits)} != {want}", expected=want, actual=len(bits))
+        ctx.fail("wrong-length", inp, f"{kind.name}/{variant.name}: serialised length {len(bits)} != {want}{how}", expected=want, actual=len(bits))
     q, err = call(kind.from_bits, bitarray(bits))
     if err:
-        ctx.fail("decode-of-encoded-raises", inp, f"{kind.name}/{variant.name}: from_bits(as_bits(p)) raised {err}", actual=err)
-        return (kind.enc_line(p, vals), None, p, bits)
+        ctx.fail("decode-of-encoded-raises", inp, f"{kind.name}/{variant.name}: from_bits(as_bits(p)) raised {err}{how}", actual=err)
+        return (enc_line or kind.enc_line(p, mv), None, p, bits)
     qa = attrs(q)
     if hold is not None:
         hold.keep(f"{kind.name}.from_bits", inp, q, qa)
     d = diff_attrs(pa, qa)
+    if ignoring and variant.carried is not None:
+        d = [x for x in d if x in variant.carried]
     if d:
-        ctx.fail("field-lost", inp, f"{kind.name}/{variant.name}: from_bits(as_bits(p)) differs from p in {d}",
+        ctx.fail("field-lost", inp, f"{kind.name}/{variant.name}: from_bits(as_bits(p)) differs from p in {d}{how}",
                  expected={k: pa.get(k) for k in d}, actual={k: qa.get(k) for k in d})
     b2, err = call(q.as_bits)
     if err or b2 != bits:
-        ctx.fail("bits-not-stable", inp, f"{kind.name}/{variant.name}: as_bits(from_bits(as_bits(p))) != as_bits(p)",
+        ctx.fail("bits-not-stable", inp, f"{kind.name}/{variant.name}: as_bits(from_bits(as_bits(p))) != as_bits(p){how}",
                  expected=sbits(bits), actual=err or sbits(b2))
-    return (kind.enc_line(p, vals), (q, err or b2), p, bits)
+    # the octet interface of the same codec (as_bytes / from_bytes), where the class has one and the PDU is whole octets
+    fb = getattr(type(p), "from_bytes", None)
+    if fb is not None and hasattr(p, "as_bytes") and len(bits) % 8 == 0 and not err:
+        y, yerr = call(p.as_bytes)
+        if yerr or bytes(y) != bits.tobytes():
+            ctx.fail("bytes-path-differs", inp, f"{kind.name}/{variant.name}: as_bytes() is not the octets of as_bits(){how}", expected=bits.tobytes().hex(),
+                     actual=yerr or bytes(y).hex())
+        else:
+            q2, e2 = call(fb, bytes(y))
+            if e2 or attrs(q2) != qa:
+                ctx.fail("bytes-path-differs", inp, f"{kind.name}/{variant.name}: from_bytes(as_bytes(p)) differs from from_bits(as_bits(p)){how}",
+                         expected={k: qa.get(k) for k in (diff_attrs(qa, attrs(q2)) if not e2 else [])}, actual=e2 or {k: attrs(q2).get(k) for k in diff_attrs(qa, attrs(q2))})
+    return (enc_line or kind.enc_line(p, mv), (q, err or b2), p, bits)
 
 
 def check_bits(ctx, kind, b):
@@ -824,6 +1053,16 @@ def check_bits(ctx, kind, b):
         hold.keep(f"{kind.name}.as_bits", inp, e1)
     if len(e1) != len(b):
         ctx.fail("wrong-length", inp, f"{kind.name}: decoded object serialises to {len(e1)} bits, not {len(b)}", expected=len(b), actual=len(e1))
+    else:
+        # a received string whose other bits are exactly what the encoder writes for the decoded fields IS the serialisation of the
+        # PDU built from those fields and the received check field: the check field must come back verbatim (unless it is the
+        # all-zero "compute it" sentinel of the constructor)
+        for cf in getattr(kind, "check", None) or []:
+            sp = cf.span(b) if (cf.span and cf.verbatim) else None
+            if sp and e1[:sp[0]] == b[:sp[0]] and e1[sp[1]:] == b[sp[1]:] and e1[sp[0]:sp[1]] != b[sp[0]:sp[1]] \
+                    and (b[sp[0]:sp[1]].any() or not cf.regen_on_zero):
+                ctx.fail("check-field-rewritten", inp, f"{kind.name}: the decoder does not return the received check field (bits {sp[0]}..{sp[1] - 1}) "
+                         "verbatim although every other bit re-serialises as received", expected=sbits(b[sp[0]:sp[1]]), actual=sbits(e1[sp[0]:sp[1]]))
     o2, err = call(kind.from_bits, bitarray(e1))
     if err:
         ctx.fail("not-a-fixed-point", inp, f"{kind.name}: from_bits(as_bits(from_bits(b))) raised {err}", actual=err)
@@ -1426,6 +1665,7 @@ class SubCtx:
         self.failures = []
         self.hist = {}
         self.hold = None
+        self.notes = []
 
     def fail(self, kind, input, what, expected=None, actual=None):
         self.failures.append((kind, what, expected, actual))
@@ -1869,6 +2109,953 @@ def alias_pdus(ctx, k, ks):
 
 
 # ------------------------------------------------------------------------------------------------
+# constructor arguments the opcode / format does NOT carry (round 3, seeded change C03-E): every PDU class takes the arguments of all
+# its opcodes / formats; an object is "built from in-range field values" whatever is passed in the arguments of the OTHER opcodes,
+# and none of them may reach the wire.  The values come from the field specs of the other variants of the same class (so the
+# whole constructor signature is covered — checked against inspect.signature and recorded in the evidence).
+def spec_value(spec, rng, how):
+    """a value of the spec: 'zero' (0 / False / smallest member / empty), 'max' (all ones / largest member), 'nz' (random, not
+    zero-like), 'random'"""
+    if isinstance(spec, CHOICE):
+        return spec_value(spec.a if how != "random" or rng.random() < 0.5 else spec.b, rng, how)
+    if how == "random":
+        return spec.rand(rng)
+    if isinstance(spec, E):
+        vs = sorted(spec.vals, key=lambda x: (not isinstance(x, int), x if isinstance(x, int) else 0))
+        if how == "zero":
+            return vs[0]
+        if how == "max":
+            return vs[-1]
+        nz = [x for x in vs if x != vs[0]] or vs
+        return rng.choice(nz)
+    if isinstance(spec, S):
+        if how == "zero":
+            return 0
+        if how == "max":
+            return (1 << (spec.w - 1)) - 1
+        return rng.choice([-1, 1]) * rng.randrange(1, 1 << (spec.w - 1))
+    if isinstance(spec, U):
+        lo = 1 if isinstance(spec, UNZ) else 0
+        if how == "zero":
+            return lo
+        if how == "max":
+            return (1 << spec.w) - 1
+        return rng.randrange(1, 1 << spec.w)
+    if isinstance(spec, VBITS):
+        if how == "zero":
+            return ""
+        if how == "max":
+            return "1" * spec.n
+        k = rng.randrange(1, spec.n + 1)
+        return "1" + rand_bits(rng, k - 1)
+    if isinstance(spec, BITS):
+        n = spec.n
+        if how == "zero" or n == 0:
+            return "0" * n
+        if how == "max":
+            return "1" * n
+        return int2ba(rng.randrange(1, 1 << n), length=n).to01()
+    if isinstance(spec, BYTES):
+        n = spec.n
+        if how == "zero" or n == 0:
+            return "00" * n
+        if how == "max":
+            return "ff" * n
+        return rng.randrange(1, 1 << (8 * n)).to_bytes(n, "big").hex()
+    return spec.rand(rng)
+
+
+def fill(var, rng, how):
+    return {n: spec_value(sp, rng, how) for n, sp in var.fields}
+
+
+def ignored_kwargs(kind, variant, own_kw, ign):
+    """keyword arguments of the class's constructor that the variant does not pass itself, with the values the OTHER variants of the
+    class would pass for the field values given in ign["from"] = [[variant name, field values], …]; ign["only"] restricts the names"""
+    only = ign.get("only")
+    out = {}
+    for wname, wvals in ign.get("from") or []:
+        w = next((x for x in kind.variants if x.name == wname), None)
+        if w is None or w.payload_kwargs is None:
+            continue
+        for n, a in w.payload_kwargs(wvals).items():
+            if n not in own_kw and n not in out and (only is None or n in only):
+                out[n] = a
+    return out
+
+
+_SIG = {}
+
+
+def ctor_params(cls):
+    import inspect
+
+    if cls not in _SIG:
+        _SIG[cls] = [n for n in inspect.signature(cls.__init__).parameters if n != "self"]
+    return _SIG[cls]
+
+
+def ignorable_params(kind, variant, rng):
+    """names of the constructor arguments the variant does not pass but another variant of the class does"""
+    own = set(variant.kwargs(fill(variant, rng, "random")))
+    names = []
+    for w in kind.variants:
+        if w is variant or w.payload_kwargs is None:
+            continue
+        for n in w.payload_kwargs(fill(w, rng, "random")):
+            if n not in own and n not in names:
+                names.append(n)
+    return names
+
+
+def zero_crc9_quirk(kind, var, vals, opts):
+    """the one combination of the unchanged code that is left out (documented in the assumptions): a confirmed NON-last rate block
+    given a CRC-32 (an argument the variant does not carry, but calculate_crc9 reads the attribute) and crc9 = 0 ("compute it") whose
+    computed CRC-9 happens to be 0 (1 in 512): the constructor's `crc9 <= 0` rule leaves 0 in the object, the decoder recomputes it without
+    the CRC-32.  Every other value of the computed CRC-9 is kept in the sweep."""
+    if not getattr(kind, "rate", None) or kind.rate[1] != "confirmed" or vals.get("crc9"):
+        return False
+    extra = ((opts or {}).get("ignored") or {}).get("extra") or {}
+    if not extra.get("crc32") or not getattr(kind, "check", None):
+        return False
+    res, err = call(kind.check[0].right, var, merged_vals(var, vals, opts))
+    return bool(not err and any(v == 0 for _l, v in res[1]))
+
+
+def ignored_cases(ctx, kind, var, rng):
+    """yield (desc, vals, opts): the variant's own fields x the arguments of the other variants (or the optional plain keys of the
+    variant: rate blocks) at zero / max / random non-zero / random — all of them and one at a time — with the carried fields random,
+    all zero-like, all max, and each carried field in turn at zero / max"""
+    others = [w for w in kind.variants if w is not var and w.payload_kwargs is not None]
+    reps = ctx.budget(1, 4)
+
+    def ign(how, only=None):
+        o = {}
+        if others:
+            o["from"] = [[w.name, fill(w, rng, how)] for w in others]
+        if var.optional:
+            o["extra"] = {n: spec_value(sp, rng, how) for n, sp in var.optional if only is None or n in only}
+        if only is not None:
+            o["only"] = list(only)
+        return o
+
+    names = (ignorable_params(kind, var, rng) if others else []) + [n for n, _sp in var.optional]
+    if not names:
+        return
+    # A: all ignored arguments at once x the carried fields
+    for cmode in ("random", "zero", "max", "nz"):
+        for imode in ("max", "nz", "zero", "random"):
+            for r in range(reps):
+                yield ("all", cmode, imode, r), fill(var, rng, cmode), {"ignored": ign(imode)}
+    # B: every carried field in turn at zero / max, the ignored arguments non-zero
+    for fi, (fname, spec) in enumerate(var.fields):
+        for j, how in enumerate(("zero", "max")):
+            vals = fill(var, rng, "random")
+            vals[fname] = spec_value(spec, rng, how)
+            yield ("carried", fname, how), vals, {"ignored": ign(("max", "nz")[(fi + j) % 2])}
+    # C: one ignored argument at a time (the others keep the constructor's default)
+    for ni, n in enumerate(names):
+        for imode in ("max", "nz"):
+            for cmode in ("zero", "random"):
+                yield ("one", n, imode, cmode), fill(var, rng, cmode), {"ignored": ign(imode, only=[n])}
+
+
+# ---- the other argument type a constructor's signature accepts (Union[int, bool], Union[<enum>, int], Union[bytes, bitarray],
+# Union[int, bitarray], Union[int, bytes]): the same value in the other type is the same field value
+def _be_bits(b):
+    x = bitarray(endian="big")
+    x.frombytes(bytes(b))
+    return x
+
+
+def _flag(a):
+    return int(a) if isinstance(a, bool) else bool(a)
+
+
+def _enum_int(a):
+    return a.value if is_enum(a) else a
+
+
+def _fsn(a):
+    from okdmr.dmrlib.etsi.layer2.elements.fragment_sequence_number import FragmentSequenceNumber
+
+    return FragmentSequenceNumber(a) if isinstance(a, int) else a.value
+
+
+ALT_ARGS = {
+    # kind prefix -> constructor argument -> the same value in the other accepted type
+    "csbk": {"last_block": _flag, "protect_flag": _flag, "csbk_content_follows_preambles": _flag, "target_address_is_individual": _flag,
+             "new_leader": _flag, "leader_dynamic_identifier": _enum_int, "channel_timing_opcode": _enum_int,
+             "source_dynamic_identifier": _enum_int, "service_function": _enum_int,
+             "raw_data": lambda a: _be_bits(a) if isinstance(a, bytes) else a.tobytes()},
+    "dh": {"is_group": _flag, "is_response_requested": _flag, "is_emergency": _flag, "fragment_sequence_number": _fsn},
+    "flc": {"protect_flag": _flag, "talker_alias_data_msb": _flag},
+    # an integer CRC-8 is stored least significant bit first (index order of the attribute = order on the wire)
+    "slc": {"crc_8bit": lambda a: sum(int(a[i]) << i for i in range(len(a)))},
+    "pi": {"crc": lambda a: a.to_bytes(2, "big")},
+    # DBSN most significant bit first; the nine CRC-9 bits in the order of the wire (least significant first); CRC-32 big endian
+    "rate": {"data": lambda a: _be_bits(a), "dbsn": lambda a: int2ba(a, length=7), "crc9": lambda a: int2ba(a, length=9)[::-1],
+             "crc32": lambda a: a.to_bytes(4, "big")},
+    "udp": {"source_ip_address_id": _enum_int, "destination_ip_address_id": _enum_int, "udp_source_port_id": _enum_int,
+            "udp_destination_port_id": _enum_int},
+}
+
+
+def alt_table(kind):
+    name = kind.name
+    return ALT_ARGS.get("rate" if name.startswith("rate") else name, {})
+
+
+def alt_argument(kind, name, a):
+    fn = alt_table(kind).get(name)
+    return fn(a) if fn else a
+
+
+def alt_cases(ctx, kind, var, rng):
+    """yield (desc, vals, opts): every argument with a second accepted type, one at a time and all together"""
+    if var.kwargs is None:
+        return
+    names = [n for n in var.kwargs(fill(var, rng, "random")) if n in alt_table(kind)]
+    if not names:
+        return
+    for r in range(ctx.budget(2, 8)):
+        for how in ("random", "zero", "max"):
+            yield ("all", how, r), fill(var, rng, how), {"alt": names}
+        for n in names:
+            yield ("one", n, r), fill(var, rng, "random"), {"alt": [n]}
+
+
+def union_params_uncovered(kind):
+    """constructor arguments annotated Union[...] of two concrete types that ALT_ARGS does not list (recorded in the evidence)"""
+    import typing
+
+    out = []
+    cls = next((v.cls for v in kind.variants if v.cls is not None), None)
+    if cls is None:
+        return out
+    try:
+        hints = typing.get_type_hints(cls.__init__)
+    except BaseException:  # noqa
+        return out
+    for n, h in hints.items():
+        args = [a for a in getattr(h, "__args__", ()) if a is not type(None)]
+        if typing.get_origin(h) is typing.Union and len(args) >= 2 and n not in alt_table(kind):
+            out.append(n)
+    return out
+
+
+# ---- correlated fields: two fields of the same type carry the same value (source = target address, both slots the same activity …)
+def equal_pair_cases(ctx, var, rng):
+    """yield (desc, vals): every pair of fields of the same type and width carries the same value, or the second one a simple
+    function of the first (octets reversed, complemented, plus 1)"""
+    def sig(sp):
+        if isinstance(sp, E):
+            return ("E", sp.cls.__name__)
+        if isinstance(sp, (U, S)) and not isinstance(sp, B):
+            return (type(sp).__name__ if isinstance(sp, S) else "U", sp.w)
+        if isinstance(sp, (BITS, BYTES)):
+            return (type(sp).__name__, sp.n)
+        return None
+
+    def width(sp):
+        return sp.w if isinstance(sp, (U, S)) else (sp.n if isinstance(sp, BITS) else 8 * sp.n)
+
+    def to_int(sp, v):
+        if isinstance(sp, BITS):
+            return int(v, 2) if v else 0
+        if isinstance(sp, BYTES):
+            return int(v, 16) if v else 0
+        return v
+
+    def from_int(sp, x):
+        w = width(sp)
+        x &= (1 << w) - 1
+        if isinstance(sp, BITS):
+            return format(x, f"0{w}b")
+        if isinstance(sp, BYTES):
+            return x.to_bytes(sp.n, "big").hex()
+        return x
+
+    fs = [(n, sp) for n, sp in var.fields if sig(sp) and not (isinstance(sp, U) and sp.w < 4)]
+    for i, (n1, s1) in enumerate(fs):
+        for n2, s2 in fs[i + 1:]:
+            if sig(s1) != sig(s2):
+                continue
+            for how in ("random", "max", "zero", "nz")[: ctx.budget(2, 4)]:
+                vals = fill(var, rng, "random")
+                v = spec_value(s1, rng, how)
+                if isinstance(s1, E) and v not in s2.vals:
+                    continue
+                if isinstance(s2, UNZ) and v == 0:
+                    continue
+                vals[n1] = vals[n2] = v
+                yield ("equal", n1, n2, how), vals
+            if isinstance(s1, (E, S)) or width(s1) < 8:
+                continue
+            w = width(s1)
+            for rel in ("octets-reversed", "complemented", "plus-1"):
+                if rel == "octets-reversed" and (w % 8 or w < 16):
+                    continue
+                vals = fill(var, rng, "random")
+                x = to_int(s1, vals[n1])
+                y = {"octets-reversed": lambda: int.from_bytes(x.to_bytes(w // 8, "big")[::-1], "big"), "complemented": lambda: ~x,
+                     "plus-1": lambda: x + 1}[rel]()
+                y = from_int(s2, y)
+                if isinstance(s2, UNZ) and y == 0:
+                    continue
+                vals[n2] = y
+                yield (rel, n1, n2), vals
+
+
+# ------------------------------------------------------------------------------------------------
+# check fields that are a systematic TRANSFORM of the right value (round 3, seeded change C03-F): a decoder must carry the check
+# field verbatim whatever it is; a 'tolerant' decoder that recognises the right CRC in another octet / bit order, complemented,
+# rotated, with another data type's mask, without mask or inversion, or computed by another CRC-16 convention, and stores the
+# corrected value, rewrites a field.  The right value comes from the library's CRC16 / CRC9 / CRC8 / RS(12,9) / 5-bit checksum AND
+# from a plain bitwise computation here (that the two agree is property C05 — a disagreement is only counted).
+def crc_bitwise(bits, width, poly, init=0, refin=False, refout=False, xorout=0):
+    bits = [int(x) for x in bits]
+    if refin:
+        bits = [b for i in range(0, len(bits), 8) for b in reversed(bits[i:i + 8])]
+    top = 1 << (width - 1)
+    mask = (1 << width) - 1
+    r = init
+    for b in bits:
+        fb = ((r & top) != 0) != bool(b)
+        r = (r << 1) & mask
+        if fb:
+            r ^= poly
+    if refout:
+        r = int(format(r, f"0{width}b")[::-1], 2)
+    return r ^ xorout
+
+
+def all_crc_masks():
+    try:
+        from okdmr.dmrlib.etsi.layer2.elements.crc_masks import CrcMasks
+
+        return [(m.name, m.value) for m in CrcMasks if isinstance(m.value, int)]
+    except BaseException:  # noqa
+        return []
+
+
+def rotl(c, w, r):
+    r %= w
+    return ((c << r) | (c >> (w - r))) & ((1 << w) - 1) if r else c
+
+
+_TRANSFORMS = {}
+
+
+def transform_table(w, own_mask):
+    """[(label, family, fn)] — systematic ways to get a wrong check value from the right one (w bits); family 'core' or the name
+    of a long family (masks, rotations, bit flips) that quick runs spread over the selector rows"""
+    key = (w, own_mask)
+    if key in _TRANSFORMS:
+        return _TRANSFORMS[key]
+    ones = (1 << w) - 1
+    out = []
+
+    def add(label, fn, family="core"):
+        out.append((label, family, (lambda c, fn=fn: fn(c) & ones)))
+
+    def octs(c):
+        return list(c.to_bytes(w // 8, "big"))
+
+    def from_octs(o):
+        return int.from_bytes(bytes(o), "big")
+
+    def brev(c):
+        return int(format(c, f"0{w}b")[::-1], 2)
+
+    add("right", lambda c: c)
+    if w % 8 == 0 and w >= 16:
+        n = w // 8
+        add("octets-reversed", lambda c: from_octs(octs(c)[::-1]))
+        for r in range(1, n):
+            add(f"octets-rotated-{r}", lambda c, r=r: from_octs(octs(c)[r:] + octs(c)[:r]))
+        add("bits-reversed-in-each-octet", lambda c: from_octs(int(format(o, "08b")[::-1], 2) for o in octs(c)))
+        add("nibbles-swapped-in-each-octet", lambda c: from_octs(((o << 4) | (o >> 4)) & 0xFF for o in octs(c)))
+        if n == 4:
+            add("octets-swapped-in-each-halfword", lambda c: from_octs([octs(c)[i] for i in (1, 0, 3, 2)]))
+    if w % 4 == 0 and w >= 8:
+        add("nibbles-reversed", lambda c: int(format(c, f"0{w // 4}x")[::-1], 16))
+    add("bits-reversed", brev)
+    add("complemented", lambda c: c ^ ones)
+    add("bits-reversed-complemented", lambda c: brev(c) ^ ones)
+    add("without-mask", lambda c: c ^ own_mask)
+    add("without-mask-and-inversion", lambda c: c ^ own_mask ^ ones)
+    seen_m = {0, own_mask}
+    for name, m in all_crc_masks():
+        for tag, mm in (("low", m & ones), ("high", m >> max(0, m.bit_length() - w))):
+            if mm not in seen_m:
+                seen_m.add(mm)
+                fam = "core" if mm.bit_length() > w - 4 else "mask"  # a mask of the field's own width: every selector row; shorter ones rotate
+                add(f"xor-mask-{name}-{tag}", lambda c, mm=mm: c ^ mm, fam)
+                add(f"mask-{name}-{tag}-instead", lambda c, mm=mm: c ^ own_mask ^ mm, fam)
+    core_rots = {1, 4 % w, 8 % w, w - 1, w - 4, w // 2} - {0}
+    for r in range(1, w):
+        add(f"rotated-left-{r}", lambda c, r=r: rotl(c, w, r), "core" if r in core_rots else "rotation")
+    add("plus-1", lambda c: c + 1)
+    add("minus-1", lambda c: c - 1)
+    add("negated", lambda c: -c)
+    add("shifted-left", lambda c: c << 1)
+    add("shifted-right", lambda c: c >> 1)
+    for i in range(w):
+        add(f"bit-{i}-flipped", lambda c, i=i: c ^ (1 << i), "bit")
+    add("zero", lambda c: 0)
+    add("all-ones", lambda c: ones)
+    add("own-mask", lambda c: own_mask)
+    add("own-mask-complemented", lambda c: own_mask ^ ones)
+    _TRANSFORMS[key] = out
+    return out
+
+
+def check_transforms(c, w, own_mask=0, full=True):
+    """[(label, value)] — the transforms of the right value c; no duplicate values, c itself first"""
+    out, seen = [], set()
+    for label, family, fn in transform_table(w, own_mask):
+        v = fn(c)
+        if v not in seen:
+            seen.add(v)
+            out.append((label, v))
+    return out
+
+
+CRC16_CONVENTIONS = [
+    # name, init, refin, refout, xorout — the catalogued CRC-16 parametrisations of the CCITT polynomial 0x1021
+    ("xmodem", 0x0000, False, False, 0x0000), ("ccitt-false", 0xFFFF, False, False, 0x0000), ("genibus", 0xFFFF, False, False, 0xFFFF),
+    ("aug-ccitt", 0x1D0F, False, False, 0x0000), ("kermit", 0x0000, True, True, 0x0000), ("x25", 0xFFFF, True, True, 0xFFFF),
+    ("mcrf4xx", 0xFFFF, True, True, 0x0000), ("tms37157", 0x89EC, True, True, 0x0000),
+]
+
+
+def other_crc16(body, own_mask):
+    """[(label, value)]: the body's CRC by the other CRC-16/CCITT conventions (with and without the data type mask), and the
+    library's convention over the body with the octets of every 16-bit word exchanged"""
+    out = []
+    bits = [int(x) for x in body]
+    for name, init, refin, refout, xorout in CRC16_CONVENTIONS:
+        v = crc_bitwise(bits, 16, 0x1021, init, refin, refout, xorout)
+        out.append((f"crc16-{name}", v))
+        out.append((f"crc16-{name}-masked", v ^ own_mask))
+    if len(bits) % 16 == 0:
+        sw = [b for i in range(0, len(bits), 16) for b in bits[i + 8:i + 16] + bits[i:i + 8]]
+        v = crc_bitwise(sw, 16, 0x1021) ^ 0xFFFF ^ own_mask
+        out.append(("crc16-over-word-swapped-body", v))
+    # the library's convention over a PART of the body / a body with the leading flags or an octet cleared / extended
+    lib = lambda x: crc_bitwise(x, 16, 0x1021) ^ 0xFFFF ^ own_mask
+    if len(bits) >= 32:
+        out.append(("crc16-over-body-without-first-octet", lib(bits[8:])))
+        out.append(("crc16-over-body-without-first-two-octets", lib(bits[16:])))
+        out.append(("crc16-over-body-without-last-octet", lib(bits[:-8])))
+        out.append(("crc16-over-body-with-first-two-bits-cleared", lib([0, 0] + bits[2:])))
+        out.append(("crc16-over-body-with-second-octet-cleared", lib(bits[:8] + [0] * 8 + bits[16:])))
+        out.append(("crc16-over-body-and-sixteen-zero-bits", lib(bits + [0] * 16)))
+        out.append(("crc16-over-reversed-body", lib(bits[::-1])))
+    return out
+
+
+class CheckField:
+    """the check field of a PDU kind: where it is, how its right value is obtained, how a value is written in the plain domain"""
+
+    def __init__(self, field, width, own_mask, right, to_plain, span=None, regen_on_zero=True, applies=None, verbatim=True):
+        self.field, self.width, self.own_mask = field, width, own_mask
+        self.right = right  # (variant, vals) -> (body bits | None, [(label, right value)])
+        self.to_plain = to_plain
+        self.span = span  # bits -> (start, stop) of the check field in a serialised PDU, or None
+        self.regen_on_zero = regen_on_zero  # an all-zero check field is the constructor's "compute it" sentinel
+        self.applies = applies or (lambda var, vals: True)
+        self.verbatim = verbatim  # the attribute is the received field (False: PI header, always recomputed)
+
+
+def mk_check_fields(ks):
+    """kind name -> [CheckField]"""
+    from okdmr.dmrlib.etsi.crc.crc16 import CRC16
+    from okdmr.dmrlib.etsi.crc.crc8 import CRC8
+    from okdmr.dmrlib.etsi.crc.crc9 import CRC9
+    from okdmr.dmrlib.etsi.layer2.elements.crc_masks import CrcMasks
+
+    out = {}
+
+    def right16(mask_member, zero_crc, nbody):
+        def right(var, vals):
+            p0 = var.build(dict(vals, crc=zero_crc))
+            body = p0.as_bits()[:nbody]
+            lib = CRC16.calculate(body.tobytes(), mask_member)
+            ind = crc_bitwise(body, 16, 0x1021) ^ 0xFFFF ^ mask_member.value
+            return body, [("library", lib), ("independent", ind)]
+
+        return right
+
+    out["csbk"] = [CheckField("crc", 16, CrcMasks.CSBK.value, right16(CrcMasks.CSBK, 0, 80), lambda c: c, span=lambda b: (80, 96))]
+    out["dh"] = [CheckField("crc", 16, CrcMasks.DataHeader.value, right16(CrcMasks.DataHeader, "0" * 16, 80),
+                            lambda c: format(c, "016b"), span=lambda b: (80, 96))]
+    out["pi"] = [CheckField("crc", 16, CrcMasks.PiHeader.value, right16(CrcMasks.PiHeader, 0, 80), lambda c: c, span=None, verbatim=False)]
+
+    def slc_right(var, vals):
+        p0 = var.build(dict(vals, crc="0" * 8))
+        body = p0.as_bits()[:28]
+        return body, [("library", CRC8.calculate(bitarray(body))), ("independent", crc_bitwise(body, 8, 0x07))]
+
+    # kept and sent least significant bit first
+    out["slc"] = [CheckField("crc", 8, 0, slc_right, lambda c: format(c, "08b")[::-1], span=lambda b: (28, 36))]
+
+    def flc_right24(var, vals):
+        from okdmr.dmrlib.etsi.fec.reed_solomon_12_9_4 import ReedSolomon1294
+
+        p0 = var.build(dict(vals, crc="0" * 24))
+        body = p0.as_bits()[:72]
+        data = body.tobytes()
+        rights = []
+        for name, m in (("voice-lc-header", CrcMasks.VoiceLCHeader.value), ("terminator-with-lc", CrcMasks.TerminatorWithLC.value), ("unmasked", 0)):
+            par = ReedSolomon1294.generate(data, m.to_bytes(3, "big"))[9:12]
+            rights.append((f"library-rs129-{name}", int.from_bytes(par, "big")))
+        return body, rights
+
+    def flc_right5(var, vals):
+        from okdmr.dmrlib.etsi.fec.five_bit_checksum import FiveBitChecksum
+
+        p0 = var.build(dict(vals, crc="0" * 5))
+        body = p0.as_bits()[:72]
+        data = body.tobytes()
+        return body, [("library", FiveBitChecksum.calculate(data)), ("independent", sum(data) % 31)]
+
+    out["flc"] = [
+        CheckField("crc", 24, CrcMasks.VoiceLCHeader.value, flc_right24, lambda c: format(c, "024b"),
+                   span=lambda b: (72, 96) if len(b) == 96 else None, regen_on_zero=False),
+        CheckField("crc", 5, 0, flc_right5, lambda c: format(c, "05b"), span=lambda b: (72, 77) if len(b) == 77 else None, regen_on_zero=False),
+    ]
+    for k in ks.values():
+        if getattr(k, "rate", None) and k.rate[1] in ("confirmed", "confirmedLast"):
+            cname = k.rate[0]
+            mask = {"12": CrcMasks.Rate12DataContinuation, "34": CrcMasks.Rate34DataContinuation, "1": CrcMasks.Rate1DataContinuation}[cname]
+
+            def right9(var, vals, mask=mask):
+                data = bytes.fromhex(vals["data"])
+                dbsn, c32 = vals.get("dbsn", 0), vals.get("crc32", 0)
+                lib = CRC9.calculate_from_parts(data=data, serial_number=dbsn, mask=mask, crc32=c32)
+                src = _be_bits(data).to01() + (format(c32, "032b") if c32 else "") + format(dbsn, "07b")
+                ind = crc_bitwise(src, 9, 0x59) ^ 0x1FF ^ mask.value
+                return None, [("library", lib), ("independent", ind)]
+
+            out[k.name] = [CheckField("crc9", 9, mask.value, right9, lambda c: c, span=lambda b: (7, 16))]
+    return out
+
+
+LONG_FAMILY_SHARE = 4  # quick: every selector row gets a rotating 1/4 of the long transform families (all of them over the rows)
+
+
+def check_field_cases(ctx, kind, var, cf, rng):
+    """yield (desc, vals, label): the check field = every transform of the right value (and the body's CRC by the other CRC-16
+    conventions), crossed with every value of every selector field of the variant (every FID, flag, enum member …: covering_rows
+    with the selector cap lifted to 32 values; the other fields random per row).  quick: the long families (other masks, all
+    rotations, single bit flips, other CRC conventions) are spread over the rows, every row gets the core transforms."""
+    global SEL_CAP
+    full = ctx.thorough()
+    if dict(var.fields).get(cf.field) is None:
+        return
+    base = fill(var, rng, "random")
+    if not cf.applies(var, base):
+        return
+    cap, SEL_CAP = SEL_CAP, 32
+    try:
+        rows = covering_rows(var, cf.field, rng.randrange(1 << 16), rng, full=False)
+    finally:
+        SEL_CAP = cap
+    table = transform_table(cf.width, cf.own_mask)
+    for r, row in enumerate(rows):
+        vals = dict(row)
+        vals[cf.field] = base[cf.field]
+        vals = {n: vals[n] for n, _s in var.fields}
+        res, err = call(cf.right, var, vals)
+        if err or not res[1]:
+            ctx.count(f"check:right-value-unavailable:{kind.name}")
+            continue
+        body, rights = res
+        if len({v for _l, v in rights if _l in ("library", "independent")}) > 1:
+            ctx.count(f"check:library-and-independent-value-differ:{kind.name}")
+        seen = set()
+        cands = []
+        for ri, (rl, rv) in enumerate(rights):
+            if not full and len(rights) > 2 and ri != r % len(rights):
+                continue  # quick: several right values (full LC: one per data type mask) take turns over the rows
+            for ti, (tl, family, fn) in enumerate(table):
+                if not full and family != "core" and (ti + r) % LONG_FAMILY_SHARE:
+                    continue
+                cands.append((rl, tl, fn(rv)))
+        if cf.width == 16 and body is not None:
+            for ti, (tl, v) in enumerate(other_crc16(body, cf.own_mask)):
+                if full or (ti + r) % LONG_FAMILY_SHARE == 0:
+                    cands.append(("body", tl, v))
+        for rl, tl, v in cands:
+            if v in seen:
+                continue
+            seen.add(v)
+            out = dict(vals)
+            out[cf.field] = cf.to_plain(v)
+            yield (cf.field, rl, tl, r), out, tl
+
+
+def check_field_decode_cases(ctx, kind, cf, rng, bases):
+    """yield (desc, bitarray): decode side — bodies that are NOT what the encoder writes (every opcode value / every octet value of the
+    selector octets over valid encodings, random bodies) with the check field = a transform of the body's right CRC-16"""
+    if cf.width != 16 or cf.span is None:
+        return
+    counter = 0
+    for vname, base in bases:
+        sp = cf.span(base)
+        if sp is None:
+            continue
+        lo, hi = sp
+        for pos, width, count in ((0, 8, 256), (8, 8, 256)):
+            for x in range(count):
+                counter += 1
+                b = base.copy()
+                b[pos:pos + width] = int2ba(x, length=width)
+                right = crc_bitwise(b[:lo], 16, 0x1021) ^ 0xFFFF ^ cf.own_mask
+                ts = check_transforms(right, 16, cf.own_mask)
+                for j in range(ctx.budget(1, 8)):
+                    tl, tv = ts[(counter * 7 + j * 11) % len(ts)]
+                    b2 = b.copy()
+                    b2[lo:hi] = int2ba(tv, length=16)
+                    yield ("decode", vname, pos, x, tl), b2, tl
+
+
+# ---- a checksum of one part of the PDU standing inside another part (round 3, correlations between unrelated parts)
+def embedded_crc_cases(ctx, kind, var, rng):
+    """yield (desc, vals): every opaque payload field of at least 24 bits carries, in its last / first 16 bits, the CRC-CCITT (no mask,
+    CSBK mask, the kind's own mask) of the rest of the field, of the whole serialisation so far, or the PDU's own right check value"""
+    own = [cf.own_mask for cf in (getattr(kind, "check", None) or []) if cf.width == 16]
+    masks = list(dict.fromkeys([0, 0xA5A5] + own))
+    for fname, spec in var.fields:
+        info = opaque_info(spec)
+        if info is None or info[0] != "payload" or info[1] is None or info[1] < 24 or isinstance(spec, CHOICE):
+            continue
+        n = info[1]
+        for row in range(ctx.budget(2, 6)):
+            vals = fill(var, rng, "random")
+            f01 = bits_of(bytes.fromhex(vals[fname])) if isinstance(spec, BYTES) else vals[fname]
+            p, err = call(var.build, vals)
+            ser, err2 = call(p.as_bits) if not err else (None, "x")
+            cands = []
+            for m in masks:
+                cands.append((f"field-head-crc-mask-{m:04x}", "tail", crc_bitwise(f01[:-16], 16, 0x1021) ^ 0xFFFF ^ m))
+                cands.append((f"field-tail-crc-mask-{m:04x}", "head", crc_bitwise(f01[16:], 16, 0x1021) ^ 0xFFFF ^ m))
+                if not err2 and ser is not None and len(ser) >= 32:
+                    cands.append((f"pdu-crc-mask-{m:04x}", "tail", crc_bitwise(ser[:len(ser) - 16], 16, 0x1021) ^ 0xFFFF ^ m))
+                    cands.append((f"pdu-head-crc-mask-{m:04x}", "tail", crc_bitwise(ser[:16], 16, 0x1021) ^ 0xFFFF ^ m))
+            if not err2 and ser is not None and len(ser) >= 16:
+                cands.append(("pdu-last-16-bits", "tail", ba2int(ser[-16:])))
+                cands.append(("pdu-last-16-bits", "head", ba2int(ser[-16:])))
+            for label, where, v in cands:
+                c01 = format(v & 0xFFFF, "016b")
+                g01 = (f01[:-16] + c01) if where == "tail" else (c01 + f01[16:])
+                out = dict(vals)
+                out[fname] = bitarray(g01).tobytes().hex() if isinstance(spec, BYTES) else g01
+                yield (fname, label, where, row), out
+
+
+# ---- argument provenance (round 3): the same bits handed over as another kind of object the decoder accepts
+def provenance_variants(b):
+    """[(label, argument)] — the bit string b as an immutable frozenbitarray, as a read-only bitarray over an imported buffer, as a
+    bitarray with spare capacity that was shortened in place, as a copy made by slicing a longer one"""
+    from bitarray import frozenbitarray
+
+    out = [("frozenbitarray", frozenbitarray(b))]
+    if len(b) % 8 == 0 and len(b):
+        try:
+            out.append(("read-only-buffer", bitarray(buffer=b.tobytes(), endian="big")))
+        except BaseException:  # noqa: bitarray without buffer import
+            pass
+    x = bitarray(b) + bitarray("1011" * 16)
+    del x[len(b):]
+    out.append(("shortened-in-place", x))
+    y = bitarray("110") + bitarray(b) + bitarray("0111")
+    out.append(("slice-of-longer", y[3:3 + len(b)]))
+    return out
+
+
+def provenance_probe(ctx, k, b):
+    ref_o, ref_err = call(k.from_bits, bitarray(b))
+    ref = outcome(ref_o, ref_err)
+    ref_e = None
+    if not ref_err:
+        e, err = call(ref_o.as_bits)
+        ref_e = err or sbits(e)
+    for label, arg in provenance_variants(b):
+        ctx.count(f"provenance:{label}")
+        before = arg.to01()
+        o, err = call(k.from_bits, arg)
+        got = outcome(o, err)
+        got_e = None
+        if not err:
+            e, err2 = call(o.as_bits)
+            got_e = err2 or sbits(e)
+        if arg.to01() != before or got != ref or got_e != ref_e:
+            ctx.fail("argument-provenance", {"kind": "alias", "probe": "provenance", "pdu": k.name, "bits": sbits(b), "as": label},
+                     f"{k.name}: from_bits of the same bits handed over as {label} gives another result than for a plain bitarray"
+                     + (" (and changes its argument)" if arg.to01() != before else ""),
+                     expected=ref if got != ref else ref_e, actual=got if got != ref else got_e)
+
+
+# ---- error paths (round 3): a call that RAISES must leave nothing behind that changes later valid calls
+def reference_outcomes(k, rng_seed, n_bits=4):
+    """canonical outcomes of a fixed sample of valid calls of the kind: per variant build / as_bits / from_bits, a few decodes"""
+    import random
+
+    rng = random.Random(f"ref:{k.name}:{rng_seed}")
+    out = []
+    for var in k.variants:
+        for how in ("random", "zero", "max"):
+            vals = fill(var, rng, how)
+            p, err = call(var.build, vals)
+            if err:
+                out.append(err)
+                continue
+            bits, err = call(p.as_bits)
+            out.append(err or sbits(bits))
+            if not err and bits is not None:
+                q, err = call(k.from_bits, bitarray(bits))
+                out.append(outcome(q, err))
+    for _ in range(n_bits):
+        b = k.bit_seeds(rng)
+        while k.name == "udp" and len(b) < 72:  # right-length strings only: shorter ones are rejected by asserts (outside the property)
+            b = b + int2ba(rng.getrandbits(40), length=40)
+        o, err = call(k.from_bits, bitarray(b))
+        out.append(outcome(o, err))
+        if not err:
+            e1, err = call(o.as_bits)
+            out.append(err or sbits(e1))
+    return out
+
+
+def failing_calls(k, rng):
+    """a batch of calls that raise (or at least leave the domain of the property): wrong lengths, wrong argument types, undefined
+    opcodes, out-of-range field values, attributes set to None — every exception is swallowed; returns how many calls raised"""
+    raised = 0
+    L = k.length or 96
+    bad_inputs = [bitarray(), bitarray("1"), bitarray("1" * (L - 1)), bitarray("0" * (L + 1)), bitarray("1" * L), bitarray("0" * L),
+                  None, "01" * (L // 2), b"\xff" * (L // 8), [1, 0] * (L // 2), 5, bitarray("1" * L, endian="little"), bytearray(L // 8)]
+    for x in bad_inputs:
+        _o, err = call(k.from_bits, x)
+        raised += bool(err)
+        if not err and _o is not None and hasattr(_o, "as_bits"):
+            _e, err = call(_o.as_bits)
+            raised += bool(err)
+    # right-length strings that raise each of the documented errors (undefined / not implemented opcodes, formats, members)
+    seen_err, tries = {}, 0
+    while tries < 400 and (tries < 40 or any(seen_err.get(e, 0) < 3 for e in k.errors)):
+        tries += 1
+        _o, err = call(k.from_bits, k.bit_seeds(rng))
+        if err:
+            seen_err[err[4:]] = seen_err.get(err[4:], 0) + 1
+            raised += 1
+    for var in k.variants:
+        for fname, spec in var.fields:
+            vals = fill(var, rng, "random")
+            sp = spec.a if isinstance(spec, CHOICE) else spec
+            if isinstance(sp, S):
+                vals[fname] = 1 << sp.w
+            elif isinstance(sp, U):
+                vals[fname] = (1 << sp.w) + rng.randrange(1 << sp.w)
+            elif isinstance(sp, BITS):
+                vals[fname] = "1" * (sp.n + 1)
+            elif isinstance(sp, BYTES):
+                vals[fname] = "ff" * (sp.n + 1)
+            elif isinstance(sp, E):
+                vals[fname] = max(x for x in sp.vals if isinstance(x, int)) + 1000
+            else:
+                continue
+            p, err = call(var.build, vals)
+            raised += bool(err)
+            if not err:
+                _b, err = call(p.as_bits)
+                raised += bool(err)
+        # an object whose attributes were set to None / a wrong type after construction
+        p, err = call(var.build, fill(var, rng, "random"))
+        if not err and hasattr(p, "__dict__"):
+            for name in sorted(vars(p)):
+                old = getattr(p, name)
+                for junk in (None, "x", -1):
+                    try:
+                        setattr(p, name, junk)
+                    except BaseException:  # noqa
+                        continue
+                    _b, err = call(p.as_bits)
+                    raised += bool(err)
+                setattr(p, name, old)
+    return raised
+
+
+def error_path_probe(ctx, spec, ks):
+    k = ks.get(spec["pdu"])
+    if k is None:
+        return
+    import random
+
+    # the reference sample holds valid calls only (objects built from fields, decodes of their own serialisations)
+    before = reference_outcomes(k, spec["seed"], n_bits=0)
+    raised = failing_calls(k, random.Random(f"err:{k.name}:{spec['seed']}"))
+    ctx.count("error-path:failing-calls-that-raised", raised)
+    after = reference_outcomes(k, spec["seed"], n_bits=0)
+    if before != after:
+        bad = [i for i, (x, y) in enumerate(zip(before, after)) if x != y]
+        ctx.fail("error-path-state", spec, f"{k.name}: after a batch of failing calls (wrong lengths / argument types / undefined opcodes / out-of-range "
+                 f"fields; {raised} of them raised) {len(bad)} of {len(before)} valid calls give a different result than before",
+                 expected=before[bad[0]] if bad else None, actual=after[bad[0]] if bad else None)
+
+
+# ---- ambient interpreter / process state (round 3): the codecs are functions of their arguments whatever the process looks like
+class RaisingWriter:
+    def write(self, *_a):
+        raise OSError("stdout is closed")
+
+    def flush(self):
+        raise OSError("stdout is closed")
+
+
+def ambient_sample(ks, seed):
+    """[outcomes] of a fixed small sample over every kind + every element value (deterministic from seed)"""
+    out = []
+    for name in sorted(ks):
+        out.append(reference_outcomes(ks[name], seed, n_bits=6))
+    return out
+
+
+def ambient_elements():
+    out = []
+    for _lname, cls, w in element_classes():
+        for v in range(2**w):
+            out.append(element_outcome(cls, v)[1])
+    return out
+
+
+def digest(x):
+    import hashlib
+
+    return hashlib.blake2b(json.dumps(x, sort_keys=True, default=str).encode(), digest_size=12).hexdigest()
+
+
+def ambient_probe(ctx, ks, seed):
+    import io
+    import logging
+    import random
+    import sys
+    import warnings
+
+    base = ambient_sample(ks, seed)
+    base_el = ambient_elements()
+
+    def compare(cond, got, got_el):
+        ctx.case(("ambient", cond, seed), nontrivial=True)
+        ctx.count(f"ambient:{cond}")
+        if got != base or got_el != base_el:
+            kinds_bad = [n for n, a, b in zip(sorted(ks), base, got) if a != b]
+            ctx.fail("ambient-dependence", {"kind": "alias", "probe": "ambient", "condition": cond, "seed": seed},
+                     f"under the ambient condition '{cond}' a fixed sample of constructor / as_bits / from_bits / element calls gives other results "
+                     f"than before (kinds {kinds_bad or 'elements'})", expected=digest([base, base_el]), actual=digest([got, got_el]))
+
+    # root logger at DEBUG with a handler that formats every record (stdout / stderr captured: the check itself prints nothing);
+    # stdout / stderr that raise on every write; and both together
+    root = logging.getLogger()
+    for cond, debug, writer in (("root-logger-debug", True, io.StringIO), ("stdout-raises", False, RaisingWriter),
+                                ("root-logger-debug+stdout-raises", True, RaisingWriter)):
+        lvl = root.level
+        sink = logging.StreamHandler(io.StringIO())
+        sink.setFormatter(logging.Formatter("%(asctime)s %(name)s %(message)s"))
+        so, se = sys.stdout, sys.stderr
+        try:
+            if debug:
+                root.setLevel(logging.DEBUG)
+                root.addHandler(sink)
+            sys.stdout = sys.stderr = writer()
+            got, got_el = ambient_sample(ks, seed), ambient_elements()
+        finally:
+            sys.stdout, sys.stderr = so, se
+            root.setLevel(lvl)
+            root.removeHandler(sink)
+        compare(cond, got, got_el)
+    # the global random generator reseeded, warnings turned into errors, a low recursion limit
+    st = random.getstate()
+    try:
+        random.seed(0)
+        got, got_el = ambient_sample(ks, seed), ambient_elements()
+    finally:
+        random.setstate(st)
+    compare("random-reseeded", got, got_el)
+    with warnings.catch_warnings():
+        warnings.simplefilter("error")
+        got, got_el = ambient_sample(ks, seed), ambient_elements()
+    compare("warnings-are-errors", got, got_el)
+    return base, base_el
+
+
+def ambient_children(ctx, seed, base_digest, base_kinds=None):
+    """the same sample in child interpreters: a fresh plain one (the pristine reference: the results at the END of this run must equal
+    it — nothing the run did may have left state behind), `python -O` (asserts stripped), and fresh interpreters in which the FIRST
+    call on every PDU class is a failing one"""
+    import os
+    import subprocess
+    import sys
+
+    here = os.path.abspath(__file__)
+    ref = None
+    for mode, flags in (("plain", []), ("python-O", ["-O"]), ("first-call-fails", []), ("python-O-first-call-fails", ["-O"])):
+        ctx.case(("ambient-child", mode, seed), nontrivial=True)
+        ctx.count(f"ambient:child:{mode}")
+        inp = {"kind": "alias", "probe": "ambient-child", "mode": mode, "seed": seed}
+        try:
+            r = subprocess.run([sys.executable] + flags + [here, "--child", mode, str(seed)], capture_output=True, text=True, timeout=300)
+        except Exception as e:  # noqa
+            ctx.notes.append(f"ambient child {mode} could not be run: {e}")
+            continue
+        line = (r.stdout.strip().splitlines() or [""])[-1]
+        try:
+            res = json.loads(line)
+        except ValueError:
+            ctx.fail("ambient-child-crashed", inp, f"the sample run in a child interpreter ({mode}) ended with rc={r.returncode} and no result: "
+                     + r.stderr.strip()[-300:], actual=r.returncode)
+            continue
+        if mode == "plain":
+            ref = res
+            if res.get("digest") != base_digest:
+                differ = sorted(n for n, d in (res.get("kinds") or {}).items() if (base_kinds or {}).get(n) != d)
+                ctx.fail("history-dependence", inp, "at the end of this run a fixed sample of constructor / as_bits / from_bits / element calls gives other "
+                         f"results than in a fresh interpreter (kinds {differ or 'elements'}): earlier calls of the run left state behind",
+                         expected=res.get("digest"), actual=base_digest)
+            continue
+        want = ref or {"digest": base_digest, "kinds": base_kinds or {}}
+        if res.get("digest") != want["digest"]:
+            differ = sorted(n for n, d in (res.get("kinds") or {}).items() if want["kinds"].get(n) != d)
+            what = "error-path-state" if "first-call-fails" in mode and "python-O" not in mode else "ambient-dependence"
+            ctx.fail(what, inp, f"in a child interpreter ({mode}) the fixed sample of constructor / as_bits / from_bits / element calls gives other results "
+                     f"than in a fresh plain interpreter (kinds {differ or 'elements'})", expected=want["digest"], actual=res.get("digest"))
+
+
+def child_main(argv):
+    """entry of the child interpreters of ambient_children: prints one JSON line {digest, kinds}"""
+    import sys
+
+    mode, seed = argv[0], int(argv[1])
+    ks = {k.name: k for k in kinds()}
+    if "first-call-fails" in mode:
+        import random
+
+        for name in sorted(ks):
+            k = ks[name]
+            L = k.length or 96
+            for x in (bitarray("1" * (L + 3)), bitarray(), None, bitarray("1" * L)):
+                call(k.from_bits, x)
+            failing_calls(k, random.Random(0))
+    base = ambient_sample(ks, seed)
+    el = ambient_elements()
+    per_kind = {n: digest(o) for n, o in zip(sorted(ks), base)}
+    sys.stdout.write(json.dumps({"digest": digest([base, el]), "kinds": per_kind, "optimized": not __debug__}) + "\n")
+    return 0
+
+
+# ------------------------------------------------------------------------------------------------
 CORPUS = [
     # repaired defects (KNOWN_FINDINGS.txt, fixed: property=C03 …) — kept so a regression is re-reported
     ("csbk", "nackRsp", {"lb": 1, "pf": 0, "fid": 0, "crc": 0, "aif": 0, "st": 1, "svc": 4, "rc": 33, "src": 2623266, "tgt": 1234}),
@@ -1880,13 +3067,17 @@ CORPUS = [
 ]
 
 
-def run_fields_case(ctx, kind, variant, vals, enc_pairs, desc, sample=None, dec_pairs=None):
+def run_fields_case(ctx, kind, variant, vals, enc_pairs, desc, sample=None, dec_pairs=None, opts=None, attr_pairs=None):
     ctx.case(desc, nontrivial=True, sample=sample)
     ctx.count(f"{kind.name}:fields:{variant.name}")
-    r = check_fields(ctx, kind, variant, vals)
+    r = check_fields(ctx, kind, variant, vals, opts=opts)
     if r is not None:
         line, dec, p, bits = r
         enc_pairs.append((line, kind.enc_out(p, bits)))
+        if attr_pairs is not None and getattr(kind, "attrs_line", None):
+            al, err = call(kind.attrs_line, p)
+            if not err:
+                attr_pairs.append((al, sbits(bits)))
         if dec_pairs is not None and dec is not None:
             # the decode of these bits as the model must see it (same text as check_bits), from the calls already made
             q, e1 = dec
@@ -1916,7 +3107,18 @@ def run(ctx):
         "encodings at every octet offset and (rotating token) at every bit offset of the PDU. History: for every element instance and every "
         "PDU variant, as_bits / from_bits / as_bytes / from_bytes are called twice (results must be distinct objects), a returned bitarray / "
         "object / the argument is changed in place (13 idioms) and the call repeated, PDUs carrying the element are built and round-tripped "
-        "afterwards, results are held across other calls and the whole run and re-verified"
+        "afterwards, results are held across other calls and the whole run and re-verified. Round 3: per variant EVERY constructor argument "
+        "of the class is set — the arguments of the other opcodes / formats at 0 / max / random non-zero / random, all at once and one at a time, "
+        "crossed with the carried fields random / all zero / all max / each in turn at 0 and max — the carried attributes must decode back, "
+        "the object must hold the values it was given, as_bits must equal the model's encoding of the given carried fields and the model's "
+        "as_bits over ALL attributes of the object; every argument in the other type its signature accepts; pairs of same-typed fields "
+        "equal / octets reversed / complemented / plus 1; as_bytes / from_bytes against as_bits / from_bits on every fields case; the check "
+        "field of every PDU kind that has one = every systematic transform of the right value (octet / bit / nibble orders, complement, all "
+        "rotations, every other data type's mask, without mask / inversion, +-1, single bit flips, other CRC-16 conventions, CRC over parts of the "
+        "body; right value from the library and from an independent computation), crossed with every selector value (all feature set ids); the "
+        "same on the decode side over all 256 values of the two selector octets; a CRC of one part of the PDU inside an opaque payload field; "
+        "error paths (valid calls - failing calls - the same valid calls); a fixed sample under ambient conditions (root logger DEBUG, stdout "
+        "raising, both, random reseeded, warnings as errors) and in child interpreters (fresh, python -O, first call on every class failing)"
     )
     ctx.trusted_base += [
         "Lean 4.33 kernel",
@@ -1928,16 +3130,45 @@ def run(ctx):
         "the Lean models are pure functions of their arguments; that as_bits / from_bits / as_bytes / from_bytes / convert of the code are too "
         "(fresh result objects, no state kept between calls, arguments left alone) is not proved but probed on the real code by the history probes "
         "of this run (every element instance and PDU variant x 13 in-place idioms, results held across the run)",
+        "Model/PduArgs.lean (as_bits over the whole attribute record, projection on the carried fields) is hand-written like the other models and "
+        "tied to the code by the `x.encattrs` correspondence lines of this run (all attributes of real objects built with every constructor argument set)",
+        "the 'right' check values fed to the transform generator come from the library's CRC16 / CRC8 / CRC9 / ReedSolomon1294 / FiveBitChecksum and "
+        "from a bitwise CRC / checksum written here (RS parity: library only); the theorems do not depend on them (the CRC functions are parameters)",
     ]
     ctx.assumptions += [
         "crc_ok / crc9_ok (integrity indicators, property C04) are not part of the compared field tuple",
         "in-range field values: WF predicates of Model/Pdu*.lean (e.g. bit_padding 8 bits, blocks_to_follow < 128, no CRC-32 / DBSN on block variants that do not carry them)",
         "mutable default arguments of the constructors (CSBK.broadcast_params, DataHeader.bit_padding: one object shared by every PDU that does not carry "
         "the field) are hidden state in the sense of property C19 and are left alone by the history probes",
+        "constructor arguments an opcode / format does not carry are given in-range values of the opcode that does carry them; they are not expected "
+        "to come back from from_bits (the decoded object has the constructor defaults there); a CRC-32 passed to a confirmed non-last rate block "
+        "enters its computed CRC-9 (calculate_crc9 reads the attribute) — modelled as the code has it, an integrity matter (C04 / C07)",
+        "ambient conditions: thread interleavings are out of scope (the property does not speak of concurrency)",
     ]
     check_elements(ctx)
     check_gps_floats(ctx)
     ks = {k.name: k for k in kinds()}
+    sig_done = set()
+    for k in ks.values():
+        cls = next((v.cls for v in k.variants if v.cls is not None), None)
+        if cls is None or cls in sig_done:
+            continue
+        sig_done.add(cls)
+        passed = set()
+        for v in k.variants:
+            if v.kwargs is not None:
+                passed |= set(v.kwargs(fill(v, ctx.rng, "random")))
+        for n in ctor_params(cls):
+            ctx.count(f"ctor-args:{'covered' if n in passed else 'NOT-covered:' + cls.__name__ + '.' + n}")
+        for n in union_params_uncovered(k):
+            ctx.count(f"ctor-args:union-type-not-exercised:{cls.__name__}.{n}")
+    # error paths first: these are the first calls of the run that raise (before them only valid calls were made)
+    for k in ks.values():
+        for j in range(ctx.budget(1, 3)):
+            spec = {"kind": "alias", "probe": "error-path", "pdu": k.name, "seed": ctx.seed * 16 + j}
+            ctx.case(("error-path", k.name, spec["seed"]), nontrivial=True)
+            ctx.count("error-path:probe")
+            error_path_probe(ctx, spec, ks)
     toks = token_dictionary()
     ctx.count("token:dictionary-size", len(toks))
     # results of the whole run are held and re-verified after every kind and at the end
@@ -1993,6 +3224,55 @@ def run(ctx):
             seen_dec = set()
             tok_dec_pairs = [x for x in tok_dec_pairs if not (x[0] in seen_dec or seen_dec.add(x[0]))]
             ctx.correspond(f"{k.name}.dec(tokens)", tok_dec_pairs)
+        # ---- round 3: constructor arguments the variant does not carry / the other accepted argument type / equal fields /
+        # check fields that are a transform of the right value — same oracle, both directions of the correspondence
+        r3_pairs, r3_dec, r3_attr = [], [], []
+        kn = k.name.split(".")[0]
+        import re as _re
+
+        for var in k.variants:
+            if var.cls is not None:
+                for desc, vals, opts in ignored_cases(ctx, k, var, ctx.rng):
+                    if zero_crc9_quirk(k, var, vals, opts):
+                        ctx.count("ignored:skipped:computed-crc9-is-zero-with-crc32-on-a-non-last-block")
+                        continue
+                    ctx.count(f"ignored:{desc[0]}:{kn}")
+                    run_fields_case(ctx, k, var, vals, r3_pairs, ("ign", k.name, var.name, json.dumps([vals, opts], sort_keys=True)),
+                                    sample={"kind": k.name, "variant": var.name, "fields": vals, "options": opts}
+                                    if (k.name, var.name, desc) == ("dh", "shortDataDefined", ("all", "zero", "max", 0)) else None,
+                                    dec_pairs=r3_dec, opts=opts, attr_pairs=r3_attr)
+                for desc, vals, opts in alt_cases(ctx, k, var, ctx.rng):
+                    ctx.count(f"alt-type:{kn}")
+                    run_fields_case(ctx, k, var, vals, r3_pairs, ("alt", k.name, var.name, json.dumps([vals, opts], sort_keys=True)),
+                                    dec_pairs=r3_dec, opts=opts, attr_pairs=r3_attr)
+            for desc, vals in equal_pair_cases(ctx, var, ctx.rng):
+                ctx.count(f"equal-fields:{kn}")
+                run_fields_case(ctx, k, var, vals, r3_pairs, ("eq", k.name, var.name, json.dumps(vals, sort_keys=True)), dec_pairs=r3_dec,
+                                attr_pairs=r3_attr)
+            if k.name == "udp":
+                for nbits in (8 * 1500, 8 * ctx.budget(4096, 65507)):
+                    vals = fill(var, ctx.rng, "random")
+                    vals["ud"] = rand_bits(ctx.rng, nbits)
+                    ctx.count("scale:udp-user-data-bits", nbits)
+                    run_fields_case(ctx, k, var, vals, r3_pairs, ("scale", k.name, var.name, nbits, vals["ud"][:64]), dec_pairs=r3_dec)
+            for desc, vals in embedded_crc_cases(ctx, k, var, ctx.rng):
+                ctx.count(f"embedded-crc:{kn}")
+                run_fields_case(ctx, k, var, vals, r3_pairs, ("emb", k.name, var.name, json.dumps(vals, sort_keys=True)), dec_pairs=r3_dec)
+            for cf in k.check:
+                for desc, vals, tl in check_field_cases(ctx, k, var, cf, ctx.rng):
+                    ctx.count("check:" + _re.sub(r"\d+", "N", tl))
+                    ctx.count(f"check-field:{kn}.{var.name}")
+                    run_fields_case(ctx, k, var, vals, r3_pairs, ("chk", k.name, var.name, json.dumps(vals, sort_keys=True)),
+                                    sample={"kind": k.name, "variant": var.name, "check_field": desc[2], "fields": vals}
+                                    if (k.name, var.name, desc[1], desc[2], desc[3]) == ("csbk", "hyteraIpscSync", "library", "octets-reversed", 0) else None,
+                                    dec_pairs=r3_dec)
+        if not ctx.search_only and ctx.driver_ok and r3_pairs:
+            ctx.correspond(f"{k.name}.enc(round 3)", r3_pairs)
+            seen_dec = set()
+            r3_dec = [x for x in r3_dec if not (x[0] in seen_dec or seen_dec.add(x[0]))]
+            ctx.correspond(f"{k.name}.dec(round 3)", r3_dec)
+            if r3_attr:
+                ctx.correspond(f"{k.name}.encattrs", r3_attr)
         # rate-coded blocks: convert(new type) — used by the burst parser's clients (C01, C07)
         if getattr(k, "rate", None) and not ctx.search_only and ctx.driver_ok:
             cname, tname, members = k.rate
@@ -2042,6 +3322,13 @@ def run(ctx):
             for desc, b, tcls in token_overlay_cases(ctx, k, ctx.rng, toks):
                 ctx.count(f"token-overlay:{desc[0]}:{k.name}")
                 seeds.append(b)
+            for cf in k.check:
+                bases = {}
+                for vname, base in variant_bases(k, ctx.rng, per_variant=1):
+                    bases.setdefault(vname, base)
+                for desc, b, tl in check_field_decode_cases(ctx, k, cf, ctx.rng, list(bases.items())):
+                    ctx.count(f"check-decode:{k.name}")
+                    seeds.append(b)
         for b in seeds:
             s = sbits(b)
             if s in seen:
@@ -2050,6 +3337,8 @@ def run(ctx):
             ctx.case((k.name, "bits", s), nontrivial=True, sample={"kind": k.name, "bits": s} if len(seen) == 1 else None)
             out = check_bits(ctx, k, b)
             dec_pairs.append((k.dec_line(s), out))
+            if len(seen) % 16 == 1 and len(b):
+                provenance_probe(ctx, k, bitarray(b))
         if not ctx.search_only and ctx.driver_ok and dec_pairs:
             ctx.correspond(f"{k.name}.dec", dec_pairs)
         # wrong lengths: outside the property (no oracle), the model must reject what the code rejects
@@ -2075,6 +3364,9 @@ def run(ctx):
         ctx.hold.verify(ctx)
     ctx.hold.verify(ctx)
     alias_elements_final(ctx, held_elements)
+    # ---- ambient interpreter / process state
+    base, base_el = ambient_probe(ctx, ks, ctx.seed)
+    ambient_children(ctx, ctx.seed, digest([base, base_el]), {n: digest(o) for n, o in zip(sorted(ks), base)})
 
 
 def model_says(prop, line):
@@ -2112,6 +3404,17 @@ def replay_alias(r, inp, ks):
         probe_element(r, inp, ks)
     elif probe == "pdu":
         probe_pdu(r, inp, ks)
+    elif probe == "provenance":
+        k = ks.get(inp.get("pdu"))
+        if k is not None:
+            provenance_probe(r, k, bitarray(inp["bits"] if inp["bits"] != "-" else ""))
+    elif probe == "error-path":
+        error_path_probe(r, inp, ks)
+    elif probe == "ambient":
+        ambient_probe(r, ks, inp.get("seed", 0))
+    elif probe == "ambient-child":
+        base, base_el = ambient_sample(ks, inp.get("seed", 0)), ambient_elements()
+        ambient_children(r, inp.get("seed", 0), digest([base, base_el]), {n: digest(o) for n, o in zip(sorted(ks), base)})
     elif probe == "element-held":
         held = alias_elements(r, ks)
         mini_sweep(r, ks)
@@ -2125,7 +3428,7 @@ def replay_alias(r, inp, ks):
         h = Holder(1, 16)
         r.hold = h
         if first.get("mode") == "fields":
-            check_fields(r, k, next(v for v in k.variants if v.name == first["variant"]), first["fields"])
+            check_fields(r, k, next(v for v in k.variants if v.name == first["variant"]), first["fields"], opts=first.get("options"))
         else:
             check_bits(r, k, bitarray(first["bits"] if first["bits"] != "-" else ""))
         r.hold = None
@@ -2169,7 +3472,7 @@ def replay(obj):
             return 1
         if inp.get("mode") == "fields":
             var = next(v for v in k.variants if v.name == inp["variant"])
-            res = check_fields(r, k, var, inp["fields"])
+            res = check_fields(r, k, var, inp["fields"], opts=inp.get("options"))
             if res:
                 print("implementation as_bits:", sbits(res[3]))
                 print("model line            :", res[0])
@@ -2183,3 +3486,12 @@ def replay(obj):
     if not r.failures:
         print("the recorded input no longer fails on this tree")
     return 1 if r.failures else 0
+
+
+if __name__ == "__main__":
+    import os
+    import sys
+
+    sys.path.insert(0, os.path.dirname(os.path.dirname(os.path.abspath(__file__))))
+    if len(sys.argv) >= 4 and sys.argv[1] == "--child":
+        sys.exit(child_main(sys.argv[2:]))
